@@ -19,7 +19,7 @@ func init() {
 		Explanation: "Protocol-shape rules on s3.Leaser (edge-cut reachability + value provenance): every PutObject carries exactly one conditional header on every path (If-None-Match:* when no ETag is known, If-Match:<etag> otherwise); " +
 			"DeleteObject carries If-Match = lease.ETag; AcquireLease writes only when no lease exists or the existing one is expired, with the ETag returned by the same read that produced the lease it judged, " +
 			"and generation = existing.Generation+1 (1 only on the not-exists path); a 412 maps to LeaseExistsError/ErrLeaseNotHeld and never to success; RenewLease keeps the generation and uses lease.ETag; " +
-			"generation continuity across release (the state the generation derives from must survive ReleaseLease).",
+			"generation continuity across release (the state the generation derives from must survive ReleaseLease). R2b: the If-Match assignment dominates DeleteObject (no unconditional delete on any path). R9: after the conditional write only the ETag of the returned lease is assigned (the lease handed back is the record stored).",
 		NotDecided:  "clock skew between instances; the provider honouring conditional writes; expiry races inside one TTL",
 		Assumptions: []string{"S3 PutObject/DeleteObject honour If-Match / If-None-Match atomically and return 412 PreconditionFailed otherwise"},
 	})
@@ -142,6 +142,14 @@ func runC20(c *Ctx) {
 			f := compositeFields(d.Common().Args[1])
 			v, ok := f["IfMatch"]
 			c.check(ok && awsStr(etag)(v), rule, fnName(rel)+": DeleteObject If-Match = lease.ETag", c.pos(d), "aws.String(lease.ETag)", "the lease object can be deleted without matching the caller's ETag")
+			// ... on every path: the header assignment dominates the request
+			uncond := false
+			for _, st := range fieldStoresOf(d.Common().Args[1], "IfMatch") {
+				if dominates(st, d) {
+					uncond = true
+				}
+			}
+			c.check(uncond, rule, fnName(rel)+": If-Match is set on every path to DeleteObject", c.pos(d), "the assignment dominates the request", "an unconditional DeleteObject is possible: a holder whose lease was taken over can delete the new owner's lease object")
 			c.requireGuard(rule, rel, Site{d, "DeleteObject"}, cmpFact(etag, token.NEQ, vConstStr(""), "lease.ETag != \"\""))
 			c.requireGuard(rule, rel, Site{d, "DeleteObject"}, cmpFact(vParam("lease"), token.NEQ, vNil(), "lease != nil"))
 			derr := resultOf(d, 1)
@@ -250,6 +258,41 @@ func runC20(c *Ctx) {
 		}
 	}
 
+	// R9: the lease handed back to the caller is the record that was stored: after the
+	// conditional write only the ETag may be assigned (a later ExpiresAt/Generation/Owner
+	// would make the holder believe in a lease that differs from the stored one)
+	for _, fn := range []*ssa.Function{acq, ren} {
+		if fn == nil {
+			continue
+		}
+		const rule = "R9-returned-lease-is-stored-lease"
+		for _, w := range callsTo(fn, nameIs("(*ls/s3.Leaser).writeLease")) {
+			lease := namedArg(w, "lease")
+			n := 0
+			for _, b := range fn.Blocks {
+				for _, in := range b.Instrs {
+					st, ok := in.(*ssa.Store)
+					if !ok {
+						continue
+					}
+					fa, ok := st.Addr.(*ssa.FieldAddr)
+					if !ok || !strings.HasPrefix(fieldAddrName(fa), "Lease.") || !(fa.X == lease || sameValue(fa.X, lease)) {
+						continue
+					}
+					n++
+					f := fieldAddrName(fa)
+					if f == "Lease.ETag" {
+						continue
+					}
+					c.check(dominates(st, w) && st.Block() != nil && !(st.Block() == w.Block() && instrIndex(st) > instrIndex(w)), rule,
+						fnName(fn)+": "+f+" of the new lease is final before it is written", c.pos(st), "assigned before writeLease",
+						f+" is changed after the conditional write: the lease returned to the caller is not the one stored (two holders can both see an unexpired lease)")
+				}
+			}
+			_ = n
+		}
+	}
+
 	// R8: generation continuity across release (F6)
 	if acq != nil && rel != nil {
 		const rule = "R8-generation-continuity"
@@ -270,3 +313,37 @@ func runC20(c *Ctx) {
 }
 
 func isConst(v ssa.Value) bool { _, ok := v.(*ssa.Const); return ok }
+
+
+// fieldStoresOf lists the stores to field `name` of the struct literal v denotes.
+func fieldStoresOf(v ssa.Value, name string) []*ssa.Store {
+	var al *ssa.Alloc
+	for _, o := range origins(v) {
+		if a, ok := o.(*ssa.Alloc); ok {
+			al = a
+		}
+	}
+	if al == nil {
+		return nil
+	}
+	var out []*ssa.Store
+	for _, r := range *al.Referrers() {
+		fa, ok := r.(*ssa.FieldAddr)
+		if !ok {
+			continue
+		}
+		fn := fieldAddrName(fa)
+		if i := strings.IndexByte(fn, '.'); i >= 0 {
+			fn = fn[i+1:]
+		}
+		if fn != name {
+			continue
+		}
+		for _, rr := range *fa.Referrers() {
+			if st, ok := rr.(*ssa.Store); ok && st.Addr == fa {
+				out = append(out, st)
+			}
+		}
+	}
+	return out
+}
